@@ -437,7 +437,7 @@ Section Stmts.
       match orelse with
       | [] => BoolOp And [test; wrap cfg body]
       | _ =>
-          let semi := BoolOp And [test; BoolOp Or [wrap cfg body; cint 1]] in
+          let semi := BoolOp And [UnaryOp Not (UnaryOp Not test); BoolOp Or [wrap cfg body; cint 1]] in
           match wrap cfg orelse with
           | BoolOp Or vs => BoolOp Or (semi :: vs)           (* a long elif chain stays flat *)
           | oe => BoolOp Or [semi; oe]
